@@ -4,6 +4,7 @@
 //   mode=c09 single-block AES (tables exhaustively; every one-byte key deviation x one-byte block deviation)
 //   mode=c10 five mode stream objects (all short block sequences, every counter carry depth, long streams)
 //   mode=c16 base64 codec (all groups) and the key validator (all '=' placements, every byte at every position)
+#include <algorithm>
 #include "cases.hpp"
 #include "fileops.hpp"
 #include "aes.h"
@@ -146,6 +147,18 @@ static std::string c08_hmac(const Case &c) {
       auto cmp = [&](const Bytes &tag) { fseek(fp, pos, SEEK_SET); hmac h2; return h2.cmphmac((u8_t)hm, key, fp, tag.data()); };
       evals++;
       if (!cmp(exp) && bad.empty()) bad = std::string("compare-rejects-right-tag:") + AN[hm] + "|cmphmac rejects the RFC 2104 tag";
+      if (n % 37 == 0 || THOROUGH) {
+        // two-byte deviations whose byte differences cancel arithmetically (0x80+0x80, 0x01+0xFF): an "accumulate the differences" comparison must not be fooled
+        for (size_t i = 0; i < exp.size(); i++)
+          for (size_t j = i + 1; j < exp.size(); j++)
+            for (int var = 0; var < 2; var++) {
+              Bytes t = exp;
+              t[i] ^= var ? 0x01 : 0x80;
+              t[j] ^= var ? 0xff : 0x80;
+              evals++;
+              if (cmp(t) && bad.empty()) bad = std::string("compare-accepts-wrong-tag:") + AN[hm] + "|cmphmac accepts a tag that differs in bytes " + std::to_string(i) + " and " + std::to_string(j);
+            }
+      }
       if (n % 37 == 0 || THOROUGH)
         for (size_t bit = 0; bit < exp.size() * 8; bit++) {
           Bytes t = exp;
@@ -158,6 +171,47 @@ static std::string c08_hmac(const Case &c) {
     close(fd);
   }
   return "#" + std::to_string(evals) + "#" + bad;
+}
+// one hmac object used for a whole sequence of calls with changing hash modes, keys and messages: every call must give what a
+// fresh object gives (the class keeps per-call state in members)
+static std::string c08_reuse(const Case &c) {
+  int order = (int)c.num("order");
+  hmac hh;
+  long evals = 0;
+  std::vector<std::pair<int, int>> seq;
+  for (int hm = 0; hm < 3; hm++) for (int k = 0; k < 5; k++) seq.push_back({hm, k});
+  // different orders: ascending, descending, interleaved by mode, rotated
+  if (order == 1) std::reverse(seq.begin(), seq.end());
+  else if (order == 2) std::sort(seq.begin(), seq.end(), [](auto a, auto b) { return a.second * 3 + a.first < b.second * 3 + b.first; });
+  else if (order >= 3) std::rotate(seq.begin(), seq.begin() + (order * 4) % seq.size(), seq.end());
+  for (int round = 0; round < 2; round++)
+    for (auto &e : seq) {
+      int hm = e.first, k = e.second;
+      size_t n = 37 + 13 * (size_t)k + 64 * (size_t)round + (size_t)order;
+      Bytes file = msg_content(2, n + 48, 0);
+      int fd = memfd_with(file);
+      FILE *fp = fopen_fd(fd, "rb");
+      unsigned char key[16];
+      memcpy(key, HKEYS[k], 16);
+      Bytes exp = ref::hmac(hm, HKEYS[k], 16, file.data() + 48, n);
+      Bytes out(40, 0xAA);
+      fseek(fp, 48, SEEK_SET);
+      hh.gethmac((u8_t)hm, key, fp, out.data());
+      evals++;
+      std::string bad;
+      if (memcmp(out.data(), exp.data(), exp.size()) != 0 || out[exp.size()] != 0xAA) bad = std::string("reused-object-tag-differs:") + AN[hm] + "|an hmac object that has served other (mode,key) calls returns a tag for mode " + AN[hm] + " that is not RFC 2104 (call #" + std::to_string(evals) + " of the sequence, order " + std::to_string(order) + ")";
+      fseek(fp, 48, SEEK_SET);
+      if (bad.empty() && !hh.cmphmac((u8_t)hm, key, fp, exp.data())) bad = std::string("reused-object-rejects-right-tag:") + AN[hm] + "|cmphmac on a reused object rejects the RFC 2104 tag";
+      Bytes wrong = exp;
+      wrong.back() ^= 0x01;
+      fseek(fp, 48, SEEK_SET);
+      if (bad.empty() && hh.cmphmac((u8_t)hm, key, fp, wrong.data())) bad = std::string("reused-object-accepts-wrong-tag:") + AN[hm] + "|cmphmac on a reused object accepts a tag whose last byte is wrong";
+      evals += 2;
+      fclose(fp);
+      close(fd);
+      if (!bad.empty()) return "#" + std::to_string(evals) + "#" + bad;
+    }
+  return "#" + std::to_string(evals) + "#";
 }
 static std::string c08_filetag(const Case &c) {
   int T = (int)c.num("T"), cm = (int)c.num("cm"), hm = (int)c.num("hm"), k = (int)c.num("k");
@@ -570,6 +624,7 @@ static void build(const Args &a, std::vector<Case> &out) {
           if (!THOROUGH && k && (n % 3)) continue;
           add(Case().set("g", "hmac").set("hm", hm).set("k", k).set("len", (long)n), std::string("hmac:") + AN[hm] + ":len%64=" + std::to_string(n % 64) + ":refills=" + std::to_string(n / R));
         }
+    for (int order = 0; order < 8; order++) add(Case().set("g", "reuse").set("order", order), "reuse:order=" + std::to_string(order));
     for (int T : {1, 2, 3, 4, 5, 16})
       for (int cm : {0, 1, 2})
         for (int hm = 0; hm < 3; hm++)
@@ -610,6 +665,7 @@ static std::string run_case(const Case &c) {
   if (g == "big") return c07_big(c);
   if (g == "hmac") return c08_hmac(c);
   if (g == "filetag") return c08_filetag(c);
+  if (g == "reuse") return c08_reuse(c);
   if (g == "tables") return c09_tables(c);
   if (g == "dev") return c09_dev(c);
   if (g == "bits") return c09_bits(c);
